@@ -69,6 +69,11 @@ def predicting(args):
         prob.h.may_be_inf = bool(args.get('inf'))
         box.update(ctx=ctx, consulted=[], predicted=[], requests=[])
         returned = []
+        # state that survives between uses: another model object of the same class was filled and trained earlier
+        decoy = Model(prob)
+        decoy.add_data([0.0, 0.0], [1.0])
+        decoy.eval_counter, decoy.predict_counter, decoy.trained, decoy.train_step = 3, 2, True, 1
+        decoy.train_calls.append(1)
         model = Model(prob)
         prob.surrogate = model
         model.train_step = [-1, 1, 2, 3][ctx.choice('train_step', 4)]
